@@ -17,7 +17,7 @@ RULE = ("(1) every runtime block of ET/DT/ES (both Modbus framings; ES blocks of
         "style / field index, outcome class) tuples")
 ASSUMPTIONS = ["DT.read_settings_data() is outside the property's wording (it names ET and ES for the bulk settings read)",
                "a key may map to None; the key set must contain every id of the covered sensors/settings"]
-MUST = ["stateful_decode_compared", "settings_registers_refused", "single_reads_after_capability_change", "blocks_decoded", "none_values_seen", "valueerror_paths_seen", "field_sweeps", "end_to_end_runtime",
+MUST = ["undecodable_value_read_twice", "stateful_decode_compared", "settings_registers_refused", "single_reads_after_capability_change", "blocks_decoded", "none_values_seen", "valueerror_paths_seen", "field_sweeps", "end_to_end_runtime",
         "end_to_end_settings", "single_reads", "es_short_blocks"]
 EXHAUSTIVE = {"quick": False, "thorough": True}
 
@@ -131,6 +131,18 @@ def fields_part(spec, part):
                         ve += 1
                         if fresh == "ValueError":
                             part.count("stateful_decode_compared")
+                        if ve % 7 == 1:
+                            # the same undecodable bytes read again by the same object (settings are polled over and over)
+                            try:
+                                sn.read_value(PR(bytes(b), None))
+                                part.violate("C11/decode/undecodable-value-accepted-after-earlier-read",
+                                             f"{type(sn).__name__}.read_value({bytes(b).hex()}) raised ValueError, the same object reading the "
+                                             f"same bytes again returned a value",
+                                             {"field": True, "twice": True, "type": type(sn).__name__, "bytes": bytes(b).hex()})
+                            except ValueError:
+                                part.count("undecodable_value_read_twice")
+                            except Exception:       # noqa
+                                pass
                     except Exception as e:      # noqa
                         part.violate(f"C11/decode/{type(e).__name__}",
                                      f"{type(sn).__name__}.read_value({bytes(b).hex()}) raised {type(e).__name__}: {e}",
@@ -279,7 +291,11 @@ def replay(case):
         try:
             sn.read_value(g.protocol.ProtocolResponse(bytes.fromhex(case["bytes"]), None))
         except ValueError:
-            pass
+            try:
+                sn.read_value(g.protocol.ProtocolResponse(bytes.fromhex(case["bytes"]), None))
+                return [{"key": "C11/decode/undecodable-value-accepted-after-earlier-read", "msg": "second read of the same bytes returned a value"}]
+            except ValueError:
+                pass
         except Exception as e:      # noqa
             return [{"key": f"C11/decode/{type(e).__name__}", "msg": str(e)}]
     else:
